@@ -290,6 +290,9 @@ struct Search<'a> {
     cap: usize,
     seen: HashSet<(Vec<usize>, Vec<usize>, usize)>,
     final_mismatch: Option<String>,
+    /// also require every mock-induced panic message to name the method and the pattern that the sequential
+    /// explanation involves at that point
+    strict_naming: bool,
 }
 
 impl Search<'_> {
@@ -389,6 +392,11 @@ impl Search<'_> {
             let mut ev = vec![];
             let exp = s2.call(call.method, &call.args, false, &mut inj, &mut ev);
             let mut ok = outcome_matches(&exp, &call.obs);
+            if ok && self.strict_naming {
+                if let Obs::PanicString(m) = &call.obs {
+                    ok = crate::check::naming_ok(&exp, m, &s2);
+                }
+            }
             if !ok && s2.dontcare {
                 if let Obs::PanicString(m) = &call.obs {
                     if classify_panic(m).is_some() {
@@ -415,6 +423,10 @@ impl Search<'_> {
 }
 
 pub fn linearizable(case: &ConcCase, trace: &ConcTrace, cap: usize) -> (LinResult, Option<String>) {
+    linearizable_with(case, trace, cap, false)
+}
+
+pub fn linearizable_with(case: &ConcCase, trace: &ConcTrace, cap: usize, strict_naming: bool) -> (LinResult, Option<String>) {
     let cfg = crate::build_cfg();
     let spec = Spec::build(case.partial, &case.clauses, cfg, Variant::True).expect("built before");
     let mut per_thread = vec![vec![]; case.threads.len()];
@@ -432,6 +444,7 @@ pub fn linearizable(case: &ConcCase, trace: &ConcTrace, cap: usize) -> (LinResul
         cap,
         seen: HashSet::new(),
         final_mismatch: None,
+        strict_naming,
     };
     let mut done = vec![0; case.threads.len()];
     match search.rec(&spec, &mut done) {
@@ -499,8 +512,30 @@ pub fn check_conc(case: &ConcCase, trace: &ConcTrace) -> Result<Option<Discrepan
         }));
     }
 
+    // first with the messages taken into account: if only that fails, the history is explainable but some panic
+    // message names a method / pattern that no sequential explanation involves at that point
+    match linearizable_with(case, trace, 300_000, true) {
+        (LinResult::Ok, _) => return Ok(None),
+        (LinResult::Capped, _) => return Err("linearizability search cap hit".into()),
+        (LinResult::None { .. }, _) => {}
+    }
     match linearizable(case, trace, 300_000) {
-        (LinResult::Ok, _) => Ok(None),
+        (LinResult::Ok, _) => Ok(Some(Discrepancy {
+            props: vec!["C19", "C10"],
+            at: "history: panic messages".into(),
+            expected: "every mock-induced panic message names the method and the pattern of the sequential explanation".into(),
+            observed: format!(
+                "{:?}",
+                trace
+                    .calls
+                    .iter()
+                    .filter_map(|c| match &c.obs {
+                        Obs::PanicString(m) => Some(format!("T{}#{} {}{:?}: {}", c.thread, c.idx, c.method.method_name(), c.args, m.chars().take(160).collect::<String>())),
+                        _ => None,
+                    })
+                    .collect::<Vec<_>>()
+            ),
+        })),
         (LinResult::Capped, _) => Err("linearizability search cap hit".into()),
         (LinResult::None { explored }, why) => Ok(Some(Discrepancy {
             // no sequential explanation exists: positions (C02), counts/verdict (C03) and - if ordered
